@@ -307,6 +307,12 @@ mod verif_kani {
         core::mem::forget(g);
     }
 
+    // MEASURED, out of reach: any harness that reaches LuaGenerator::write_expression (tried:
+    // write_tuple_arguments on `f()` / `f(true)`) crashes the Kani compiler itself (internal
+    // compiler error in kani-compiler/src/intrinsics.rs on code reachable from the number
+    // writers).  The write_* traversal therefore stays outside the contracts; what is covered
+    // is the cursor operation it must use (merge_char).
+
     //@harness props=C02 kind=mustfail fns=DenseLuaGenerator::push_str
     //@ desc="vacuity witness: the false claim `push_str never writes a separator` must be refuted"
     #[kani::proof]
